@@ -46,12 +46,18 @@ pub enum MutOp {
     InRegion { region: u8, off: u16, val: u8 },
     /// append `n` copies of an empty member / empty stream of the format
     AppendEmpty { n: u32 },
+    /// set the control byte of LZMA2 chunk `chunk` (located by the harness's chunk walker, also
+    /// inside XZ blocks) to one of the class boundaries
+    Control { chunk: u16, val: u8 },
 }
 
 #[derive(Clone, Debug, Serialize, Deserialize)]
 pub enum Input {
     Random { len: u32, seed: u64, magic: bool },
     Mutated { data: Data, ops: Vec<MutOp>, fix_crc: bool },
+    /// XZ only: stream header + block header generated from a grammar (sizes, flags, size
+    /// fields, filter ids, property sizes all drawn from boundary sets) + payload + index + footer
+    XzGrammar { seed: u64, good_crc: bool },
 }
 
 #[derive(Clone, Debug, Serialize, Deserialize)]
@@ -63,6 +69,7 @@ pub struct Case {
 
 pub struct C06;
 
+const CONTROLS: [u8; 14] = [0x00, 0x01, 0x02, 0x03, 0x7F, 0x80, 0x9F, 0xA0, 0xBF, 0xC0, 0xDF, 0xE0, 0xFF, 0x81];
 const U32_VALS: [u32; 10] = [0, 1, 0x7F, 0x80, 0xFFFF, 0x1_0000, 0x7FFF_FFFF, 0x8000_0000, 0xFFFF_FFFE, 0xFFFF_FFFF];
 
 fn dec_strategy(family: u32) -> BoxedStrategy<Dec> {
@@ -112,6 +119,7 @@ fn op_strategy() -> BoxedStrategy<MutOp> {
         6 => (0u8..7, 0u16..64, prop_oneof![Just(0u8), Just(0xFFu8), Just(0x80u8), Just(0x7Fu8), Just(0x28u8), Just(0x29u8), any::<u8>()])
             .prop_map(|(region, off, val)| MutOp::InRegion { region, off, val }),
         1 => prop_oneof![6 => 1u32..40, 3 => 1000u32..3000, 1 => 150_000u32..250_000].prop_map(|n| MutOp::AppendEmpty { n }),
+        4 => (0u16..40, 0u8..14).prop_map(|(chunk, val)| MutOp::Control { chunk, val }),
     ]
     .boxed()
 }
@@ -119,6 +127,7 @@ fn op_strategy() -> BoxedStrategy<MutOp> {
 fn input_strategy() -> BoxedStrategy<Input> {
     prop_oneof![
         2 => (0u32..3000, any::<u64>(), any::<bool>()).prop_map(|(len, seed, magic)| Input::Random { len, seed, magic }),
+        2 => (any::<u64>(), prop_oneof![4 => Just(true), 1 => Just(false)]).prop_map(|(seed, good_crc)| Input::XzGrammar { seed, good_crc }),
         8 => (
             prop_oneof![1 => Just(Data::default()), 6 => data_strategy(3, 5000), 2 => data_strategy(3, 70_000)],
             proptest::collection::vec(op_strategy(), 1..6),
@@ -206,7 +215,15 @@ fn build_base(dec: &Dec, data: &[u8]) -> Result<Vec<u8>, Failure> {
             let cfg = XzCfg {
                 check: 1 + (data.len() % 3) as u8,
                 block: Some(4096),
-                filters: if data.len() % 4 == 1 { vec![FilterSpec::Delta(1 + (data.len() % 256) as u32)] } else if data.len() % 4 == 2 { vec![FilterSpec::Bcj((data.len() % 8) as u8, 0)] } else { vec![] },
+                filters: if data.len() % 4 == 1 {
+                    vec![FilterSpec::Delta(1 + (data.len() % 256) as u32)]
+                } else if data.len() % 4 == 2 {
+                    // every other one with a start offset (4-byte filter properties)
+                    let a = (data.len() % 8) as u8;
+                    vec![FilterSpec::Bcj(a, if data.len() % 8 >= 4 { 16 * (1 + data.len() as u32 % 1000) } else { 0 })]
+                } else {
+                    vec![]
+                },
                 opts,
             };
             let plan = if cfg.filters.iter().any(|f| f.is_bcj()) { Plan::All } else { Plan::Fixed(3000) };
@@ -328,6 +345,28 @@ fn apply_ops(dec: &Dec, base: &[u8], ops: &[MutOp], fix_crc: bool) -> Vec<u8> {
                     }
                 }
             }
+            MutOp::Control { chunk, val } => {
+                // offsets of LZMA2 chunk headers in the *base* layout
+                let mut offs: Vec<usize> = Vec::new();
+                if matches!(dec, Dec::Lzma2 { .. } | Dec::Lzma2Mt { .. }) {
+                    offs = walk_lzma2(base).chunks.iter().map(|c| c.offset).collect();
+                } else if let Some(w) = &xzw {
+                    if w.error.is_none() {
+                        for s in &w.streams {
+                            for b in &s.blocks {
+                                let payload = &base[b.data_offset..b.check_offset];
+                                offs.extend(walk_lzma2(payload).chunks.iter().map(|c| b.data_offset + c.offset));
+                            }
+                        }
+                    }
+                }
+                if same_layout && !offs.is_empty() {
+                    let o = offs[chunk as usize % offs.len()];
+                    if o < m.len() {
+                        m[o] = CONTROLS[val as usize % CONTROLS.len()];
+                    }
+                }
+            }
             MutOp::AppendEmpty { n } => {
                 // the deep-recursion sizes are reserved for the MT readers (36 bytes per member)
                 let n = if n > 3000 && !matches!(dec, Dec::LzipMt { .. } | Dec::Lzma2Mt { .. }) { n % 3000 } else { n };
@@ -381,6 +420,144 @@ fn apply_ops(dec: &Dec, base: &[u8], ops: &[MutOp], fix_crc: bool) -> Vec<u8> {
         }
     }
     m
+}
+
+/// An XZ file whose block header is drawn from a grammar of boundary values.
+fn xz_grammar(seed: u64, good_crc: bool) -> Vec<u8> {
+    let mut r = Prng::new(seed);
+    let mut f = Vec::new();
+    // stream header
+    let check = [0u8, 1, 4, 10, 2, 15][r.below(6) as usize];
+    f.extend_from_slice(b"\xFD7zXZ\0");
+    f.extend_from_slice(&[0, check]);
+    let c = crc32(&[0, check]);
+    f.extend_from_slice(&c.to_le_bytes());
+    let blocks = 1 + r.below(2);
+    for _ in 0..blocks {
+        // block header body
+        let mut body: Vec<u8> = Vec::new();
+        let nf = r.below(4) as u8;
+        let flags = nf | [0u8, 0x40, 0x80, 0xC0, 0x04, 0x3C][r.below(6) as usize];
+        body.push(flags);
+        let vli = |r: &mut Prng, out: &mut Vec<u8>| {
+            match r.below(6) {
+                0 => out.push(0),
+                1 => out.push(r.below(128) as u8),
+                2 => vli_encode(r.below(1 << 20), out),
+                3 => vli_encode(u64::MAX >> 1, out),
+                4 => out.extend_from_slice(&[0x80; 3]),
+                _ => out.extend_from_slice(&[0xFF; 9]),
+            }
+        };
+        if flags & 0x40 != 0 {
+            vli(&mut r, &mut body);
+        }
+        if flags & 0x80 != 0 {
+            vli(&mut r, &mut body);
+        }
+        for k in 0..=(nf as usize) {
+            let last = k == nf as usize;
+            let id: u64 = if last && r.below(8) != 0 {
+                0x21
+            } else {
+                [0x03u64, 0x04, 0x05, 0x06, 0x07, 0x08, 0x09, 0x0A, 0x0B, 0x21, 0x00, 0x02, 0x0C, 0x4000_0000_0000_0001][r.below(14) as usize]
+            };
+            vli_encode(id, &mut body);
+            let ps = match id {
+                0x21 | 0x03 => [1u64, 1, 1, 0, 2][r.below(5) as usize],
+                0x04..=0x0B => [0u64, 4, 4, 4, 1, 5, 3][r.below(7) as usize],
+                _ => r.below(6),
+            };
+            vli_encode(ps, &mut body);
+            let want = if r.below(6) == 0 { r.below(6) as usize } else { ps as usize };
+            for j in 0..want {
+                body.push(match id {
+                    0x21 => [0u8, 4, 18, 40, 41, 0xFF][r.below(6) as usize],
+                    0x03 => [0u8, 0xFF, 7][r.below(3) as usize],
+                    _ => {
+                        if j == 0 {
+                            [0u8, 16, 1, 0xF0][r.below(4) as usize]
+                        } else {
+                            [0u8, 0xFF, 0x7F][r.below(3) as usize]
+                        }
+                    }
+                });
+            }
+        }
+        // header size: the right one (60 %), or any other multiple of four up to one word past
+        // it, so that the declared header ends inside every possible field; when the body does
+        // not fit, the body bytes themselves take the place of the CRC
+        let need = (1 + body.len() + 4).div_ceil(4) * 4;
+        let hs = if r.below(10) < 6 {
+            need
+        } else {
+            match r.below(8) {
+                0 => 1024,
+                _ => 8 + 4 * r.below((need as u64 + 4 - 8) / 4 + 1) as usize,
+            }
+        }
+        .clamp(8, 1024);
+        let mut hdr = vec![(hs / 4 - 1) as u8];
+        hdr.extend_from_slice(&body);
+        if hdr.len() + 4 <= hs {
+            let pad = hs - 4 - hdr.len();
+            for _ in 0..pad {
+                hdr.push(if r.below(20) == 0 { 1 } else { 0 });
+            }
+            let c = if good_crc { crc32(&hdr) } else { r.next() as u32 };
+            hdr.extend_from_slice(&c.to_le_bytes());
+        } else {
+            hdr.truncate(hs);
+            while hdr.len() < hs {
+                hdr.push(0);
+            }
+        }
+        f.extend_from_slice(&hdr);
+        // payload: a small valid LZMA2 stream (uncompressed chunk) or junk
+        let payload: Vec<u8> = match r.below(4) {
+            0 => vec![0x00],
+            1 => vec![0x01, 0x00, 0x03, b'a', b'b', b'c', b'd', 0x00],
+            2 => vec![0x01, 0x00, 0x00, b'x', 0xA0, 0x00, 0x0F, 0x00, 0x09, 0, 1, 2, 3, 4, 5, 6, 7, 8, 0x00],
+            _ => {
+                let mut j = vec![0u8; r.below(40) as usize];
+                r.fill(&mut j);
+                j
+            }
+        };
+        f.extend_from_slice(&payload);
+        while f.len() % 4 != 0 {
+            f.push(0);
+        }
+        let cl = check_len(check);
+        let data: &[u8] = match payload.len() {
+            8 => b"abcd",
+            _ => b"",
+        };
+        let mut ck = compute_check(check, data);
+        ck.resize(cl, 0);
+        f.extend_from_slice(&ck);
+    }
+    // index + footer: mostly consistent
+    let mut idx = vec![0u8];
+    vli_encode(if r.below(8) == 0 { r.below(1 << 40) } else { blocks }, &mut idx);
+    for _ in 0..blocks {
+        vli_encode(24 + r.below(40), &mut idx);
+        vli_encode(r.below(8), &mut idx);
+    }
+    while idx.len() % 4 != 0 {
+        idx.push(0);
+    }
+    let c = crc32(&idx);
+    idx.extend_from_slice(&c.to_le_bytes());
+    f.extend_from_slice(&idx);
+    let mut foot = Vec::new();
+    foot.extend_from_slice(&((idx.len() / 4 - 1) as u32).to_le_bytes());
+    foot.extend_from_slice(&[0, check]);
+    let c = crc32(&foot);
+    f.extend_from_slice(&c.to_le_bytes());
+    f.extend_from_slice(&foot);
+    f.extend_from_slice(b"YZ");
+    f
 }
 
 /// drives the decoder over the input; every call must return
@@ -486,6 +663,10 @@ impl Property for C06 {
         tier.pick(150_000, 5_000_000)
     }
 
+    fn case_timeout_s(_tier: Tier) -> u64 {
+        45
+    }
+
     fn rule() -> &'static str {
         "case = (decoder + caller-side parameters: props byte 0-255, dictionary size, declared size incl. 2^63 and u64::MAX, memory limit, BCJ start offset, delta distance, BCJ2 declared size; input = valid stream of that decoder mutated by 1-5 operations: bit flip, byte set, u32 boundary value, truncate, insert, delete, overwrite inside a structural region located by the harness's walker, append 1-3000 empty members/units; CRC32s of XZ structures recomputed in 3 of 4 cases so that the damage reaches deep parsing; or a random string with or without the magic). Oracle: every read call returns (Ok or Err) - a panic, a shadow assertion, an abort (process death, detected through the journal) or a stack overflow is a violation; peak heap during the case <= declared dictionary (every place in the input that looks like a dictionary declaration counts) + 8 MiB + 4 x input length; a case that needs more than 20 s is a violation. Non-trivial = the walker / first-bytes test says the header stage was passed. Distinct = hash of the case recipe."
     }
@@ -520,6 +701,10 @@ impl Property for C06 {
                 }
                 obs.class("random");
                 v
+            }
+            Input::XzGrammar { seed, good_crc } => {
+                obs.class("grammar");
+                xz_grammar(*seed, *good_crc)
             }
             Input::Mutated { data, ops, fix_crc } => {
                 let d = data.expand();
